@@ -85,6 +85,8 @@ struct vprec {
         for (size_t i = 0, n = amgcl::backend::rows(*A); i < n; ++i) { so += x[i] * x[i]; si += rhs[i] * rhs[i]; }
         maxout = std::max(maxout, std::sqrt(so)); maxin = std::max(maxin, std::sqrt(si));
     }
+    // amg::rebuild with a new matrix of the same shape; the system matrix of later solve(rhs, x) calls is the new one
+    void rebuild(std::shared_ptr<build_matrix> M) { amg->rebuild(M); A = amg->system_matrix_ptr(); }
     std::shared_ptr<matrix> system_matrix_ptr() const { return A; }
     const matrix &system_matrix() const { return *A; }
     size_t bytes() const { return 0; }
@@ -622,6 +624,38 @@ static void mode_hist(int shard, int nshards) {
                 // 2. the next solves on the same object
                 in.cas = "after_abort"; in.f = f2; in.x0 = x2; run_solve_on(solve, in);
                 in.cas = "after_solve"; in.f = f1; in.x0 = x1; run_solve_on(solve, in);
+            } catch (const std::exception &e) { vr::obj o; [&]{ double d = 0; record_header(o, in, d); }(); record_exception(o, e); vr::emit(o.done()); }
+        }
+        // the preconditioner rebuilt for a new matrix, then solve(rhs, x): the residual reported must be that of the NEW system,
+        // for hierarchies of one direct-solver level (n <= coarse_enough), of one relaxed level (direct_coarse = false) and of several levels
+        vr::rng g2(seed * 131ull + rep * 17 + 5);
+        for (int si = 0; si < 8; ++si) for (int shape = 0; shape < 3; ++shape) {
+            if ((si * 3 + shape) % nshards != shard) continue;      // own sharding and own random stream: the other cases are unchanged
+            std::string s = SOLVERS[si];
+            solve_in in; in.mode = "hist"; in.solver = s; in.sided = is_sided(s); in.side = "right";
+            in.par = s == "bicgstabl" ? 2 : s == "idrs" ? 3 : (s == "gmres" || s == "fgmres" || s == "lgmres") ? 5 : 1;
+            in.maxit = 100; in.tol = 1e-8; in.cfgid = 900000 + si * 3 + shape; in.fam = "spd_m_grid2"; in.pkind = "amg";
+            in.coars = COARS[1 + (si + shape) % 2]; in.relax = "spai0";
+            int mm = shape == 2 ? m : 6;
+            auto A1 = fam_grid(g2, mm, mm, 1, 0, 1, 1, 0, 0, 0);
+            auto A2 = std::make_shared<crsd>(*A1);          // same pattern, different operator: rows scaled, diagonal shifted (stays an SPD-like M-matrix)
+            for (size_t i = 0; i < A2->nrows; ++i) for (ptrdiff_t q = A2->ptr[i]; q < A2->ptr[i + 1]; ++q)
+                A2->val[q] = A2->val[q] * 3.0 + (A2->col[q] == (ptrdiff_t)i ? 2.0 + (i % 3) : 0.0);
+            amg_params(in.prm, in.coars, in.relax, shape == 2 ? 30 : 3000);
+            in.prm.put("precond.amg.allow_rebuild", true);
+            if (shape == 1) in.prm.put("precond.amg.direct_coarse", false);
+            solver_params(in.prm, s, in.side, in.par, 0, in.maxit, in.tol);
+            size_t n = A1->nrows;
+            std::vector<double> f1(n), x1(n, 0.0), f2, x2;
+            for (size_t i = 0; i < n; ++i) f1[i] = 1.0 + 0.25 * (i % 7);
+            second_rhs(g2, f1, f2, x2);
+            try {
+                Solver solve(A1, in.prm);
+                in.A = A1; in.cas = "before_rebuild"; in.f = f1; in.x0 = x1; run_solve_on(solve, in);
+                solve.precond().rebuild(A2);
+                in.A = A2; in.cas = "after_rebuild"; in.f = f2; in.x0 = x2; run_solve_on(solve, in);
+                solve.precond().rebuild(A1);
+                in.A = A1; in.cas = "after_rebuild_back"; in.f = f1; in.x0 = x1; run_solve_on(solve, in);
             } catch (const std::exception &e) { vr::obj o; [&]{ double d = 0; record_header(o, in, d); }(); record_exception(o, e); vr::emit(o.done()); }
         }
         // the library's own breakdown: BiCGStab(L) "zero rho" on a 3x3 system, then regular solves on the object
